@@ -1004,6 +1004,24 @@ fn parse_expr_binop(
                 }
             };
 
+            // A literal type can not be the component type of a vector or matrix
+            // A literal combined with components of another type takes the type a variable of the literal would have
+            let target_nv_id = if dim == ir::NumericDimension::Scalar {
+                target_nv_id
+            } else {
+                match context.module.type_registry.extract_scalar(target_nv_id) {
+                    Some(ir::ScalarType::IntLiteral) => context
+                        .module
+                        .type_registry
+                        .transform_scalar(target_nv_id, ir::ScalarType::Int32),
+                    Some(ir::ScalarType::FloatLiteral) => context
+                        .module
+                        .type_registry
+                        .transform_scalar(target_nv_id, ir::ScalarType::Float32),
+                    _ => target_nv_id,
+                }
+            };
+
             // Apply the found dimension (to both sides of input)
             let ty = match dim {
                 ir::NumericDimension::Scalar => target_nv_id,
